@@ -650,8 +650,9 @@ func (e *Extractor) extractSuffixes(re *syntax.Regexp, depth int) *Seq {
 				continue
 			}
 
-			// Can only extend with literal sub-expressions
-			if sub.Op != syntax.OpLiteral {
+			// Can only extend with case-sensitive literal sub-expressions: a
+			// case-folded literal stands for every spelling, not for sub.Rune verbatim.
+			if sub.Op != syntax.OpLiteral || sub.Flags&syntax.FoldCase != 0 {
 				// Non-literal encountered: mark all suffixes as incomplete and stop
 				lits := make([]Literal, suffixes.Len())
 				for j := 0; j < suffixes.Len(); j++ {
